@@ -18,6 +18,7 @@ import (
 	"os"
 	"strings"
 	"sync"
+	"sync/atomic"
 	"time"
 
 	"github.com/notaryproject/notation-core-go/revocation"
@@ -52,6 +53,8 @@ var chainKinds = []chainKind{
 	{"root-expired", wValid, wValid, wExpired}, {"root-not-yet-valid", wValid, wValid, wNotYet},
 }
 
+var tsRevGotSigningTime int32
+
 type tsRev struct {
 	status string // ok revoked unknown err
 	mu     sync.Mutex
@@ -59,6 +62,11 @@ type tsRev struct {
 }
 
 func (t *tsRev) ValidateContext(ctx context.Context, o revocation.ValidateContextOptions) ([]*result.CertRevocationResult, error) {
+	if !o.AuthenticSigningTime.IsZero() {
+		// "unrevoked TSA" is judged as of the verification: handing the validator a signing time lets it excuse a
+		// revocation whose invalidity date lies after that time - and the only time on offer is the one the TSA itself wrote
+		atomic.AddInt32(&tsRevGotSigningTime, 1)
+	}
 	t.mu.Lock()
 	t.calls++
 	t.mu.Unlock()
@@ -105,6 +113,9 @@ func main() {
 	for _, k := range []string{"tsa", "tsa-noncrit", "tsa-extra", "tsa-none", "tsa-keyusage", "tsa-ca"} {
 		tsaLeaf[k] = lib.Mint(tsaRoot, lib.CertSpec{CN: "c06-" + k, Kind: k, KeyIdx: 2, NotBefore: now.Add(-2900 * day), NotAfter: now.Add(2900 * day)})
 	}
+	// a TSA certificate issued by an intermediate CA whose own extended key usage is restricted to code signing
+	csOnlyCA := lib.Mint(tsaRoot, lib.CertSpec{CN: "c06-ca-for-code-signing-only", Kind: "ca-codesigning-only", KeyIdx: 3, PathLen: 1, NotBefore: now.Add(-2900 * day), NotAfter: now.Add(2900 * day)})
+	tsaUnderCSCA := lib.Mint(csOnlyCA, lib.CertSpec{CN: "c06-tsa-under-cs-ca", Kind: "tsa", KeyIdx: 2, NotBefore: now.Add(-2800 * day), NotAfter: now.Add(2800 * day)})
 	// a TSA certificate issued only 50 days ago: fine today, but it did not exist when an older time was stamped
 	tsaLate := lib.Mint(tsaRoot, lib.CertSpec{CN: "c06-tsa-late", Kind: "tsa", KeyIdx: 2, NotBefore: now.Add(-50 * day), NotAfter: now.Add(2900 * day)})
 	untrustedTSA := lib.Mint(otherTSARoot, lib.CertSpec{CN: "c06-untrusted-tsa", Kind: "tsa", KeyIdx: 3, NotBefore: now.Add(-2900 * day), NotAfter: now.Add(2900 * day)})
@@ -127,7 +138,7 @@ func main() {
 	desc := lib.Desc(ocispec.MediaTypeImageManifest, []byte("c06"))
 	payload := lib.Payload(desc)
 
-	tokens := []string{"absent", "good", "wrong-message", "untrusted-tsa", "tsa-root-in-ca-store-only", "eku-missing", "eku-extra", "eku-non-critical", "tsa-key-usage-without-signing", "tsa-certificate-is-a-ca", "tsa-store-unloadable", "tsa-store-empty", "tsa-certificate-younger-than-the-stamped-time", "tsa-revoked", "tsa-unknown", "tsa-validator-error",
+	tokens := []string{"absent", "good", "wrong-message", "untrusted-tsa", "tsa-root-in-ca-store-only", "eku-missing", "eku-extra", "eku-non-critical", "tsa-key-usage-without-signing", "tsa-certificate-is-a-ca", "tsa-store-unloadable", "tsa-store-empty", "tsa-certificate-younger-than-the-stamped-time", "tsa-issued-by-a-ca-restricted-to-code-signing", "tsa-revoked", "tsa-unknown", "tsa-validator-error",
 		"gen-before-windows", "gen-after-windows", "accuracy-straddles-lower-edge", "accuracy-straddles-upper-edge", "accuracy-just-inside-upper-edge", "garbage"}
 	var cases []caseT
 	combos := [][2]string{{lib.MediaJWS, "notary.x509"}, {lib.MediaCOSE, "notary.x509"}, {lib.MediaJWS, "notary.x509.signingAuthority"}, {lib.MediaCOSE, "notary.x509.signingAuthority"}}
@@ -258,6 +269,8 @@ func main() {
 			tsa, tokenOK = &lib.TSA{Key: tsaLeaf["tsa-keyusage"].Key, Chain: tsaLeaf["tsa-keyusage"].Chain()}, false
 		case "tsa-certificate-is-a-ca":
 			tsa, tokenOK = &lib.TSA{Key: tsaLeaf["tsa-ca"].Key, Chain: tsaLeaf["tsa-ca"].Chain()}, false
+		case "tsa-issued-by-a-ca-restricted-to-code-signing":
+			tsa, tokenOK = &lib.TSA{Key: tsaUnderCSCA.Key, Chain: tsaUnderCSCA.Chain()}, false
 		case "tsa-certificate-younger-than-the-stamped-time":
 			// the TSA's chain is judged at the time the token states, not at the time of verification
 			tsa = &lib.TSA{Key: tsaLate.Key, Chain: tsaLate.Chain()}
@@ -427,6 +440,9 @@ func main() {
 			r.Violation(sigm("strict-accepts-failure"), id+": strict verification succeeded although expiry/authenticTimestamp failed", wit)
 		}
 	}, r.PanicViolation("verifier.Verify"))
+	if n := atomic.LoadInt32(&tsRevGotSigningTime); n > 0 {
+		r.Violation(map[string]string{"kind": "tsa-revocation-with-signing-time"}, fmt.Sprintf("the timestamping revocation validator was handed an authentic signing time in %d calls (the revocation status of the TSA is judged as of the verification)", n), nil)
+	}
 	longLivedVerifier(r, root, desc, payload)
 	r.RequireAtLeast("timestamp-pass", 200)
 	r.RequireAtLeast("timestamp-fail", 1000)
@@ -474,23 +490,28 @@ func longLivedVerifier(r *lib.Run, root *lib.Ent, desc ocispec.Descriptor, paylo
 		if expiry.After(deadline) {
 			deadline = expiry
 		}
-		time.Sleep(time.Until(deadline.Add(1200 * time.Millisecond)))
-		for name, v := range map[string]interface {
-			Verify(context.Context, ocispec.Descriptor, []byte, notation.VerifierVerifyOptions) (*notation.VerificationOutcome, error)
-		}{"long-lived": long, "fresh": mk()} {
-			for what, sig := range map[string][]byte{"expiry": expiring, "leaf-notAfter": shortLived} {
-				out, _ := v.Verify(ctx, desc, sig, opts)
-				r.Eval("long-lived|" + format + "|" + name + "|" + what)
-				r.Event("long-lived-verifier-observations")
-				if out == nil {
-					continue
-				}
-				for _, res := range out.VerificationResults {
-					if what == "expiry" && res.Type == trustpolicy.TypeExpiry && res.Error == nil {
-						r.Violation(map[string]string{"kind": "stale-clock", "what": "expiry", "verifier": name}, fmt.Sprintf("%s: a %s verifier passed the expiry validation %.1f s after the signature expired (%v)", format, name, time.Since(expiry).Seconds(), expiry), nil)
+		// two looks: 120 ms after the later of the two instants (any moment after an instant is after it, however late the
+		// scheduler makes us: sound - and inside the very second that follows them, if the machine is not overloaded),
+		// and again more than a second after
+		for _, after := range []time.Duration{120 * time.Millisecond, 1200 * time.Millisecond} {
+			time.Sleep(time.Until(deadline.Add(after)))
+			for name, v := range map[string]interface {
+				Verify(context.Context, ocispec.Descriptor, []byte, notation.VerifierVerifyOptions) (*notation.VerificationOutcome, error)
+			}{"long-lived": long, "fresh": mk()} {
+				for what, sig := range map[string][]byte{"expiry": expiring, "leaf-notAfter": shortLived} {
+					out, _ := v.Verify(ctx, desc, sig, opts)
+					r.Eval("long-lived|" + format + "|" + name + "|" + what)
+					r.Event("long-lived-verifier-observations")
+					if out == nil {
+						continue
 					}
-					if what == "leaf-notAfter" && res.Type == trustpolicy.TypeAuthenticTimestamp && res.Error == nil {
-						r.Violation(map[string]string{"kind": "stale-clock", "what": "certificate-validity", "verifier": name}, fmt.Sprintf("%s: a %s verifier passed authenticTimestamp %.1f s after the leaf certificate expired (%v)", format, name, time.Since(shortLeaf.Cert.NotAfter).Seconds(), shortLeaf.Cert.NotAfter), nil)
+					for _, res := range out.VerificationResults {
+						if what == "expiry" && res.Type == trustpolicy.TypeExpiry && res.Error == nil {
+							r.Violation(map[string]string{"kind": "stale-clock", "what": "expiry", "verifier": name}, fmt.Sprintf("%s: a %s verifier passed the expiry validation %.1f s after the signature expired (%v)", format, name, time.Since(expiry).Seconds(), expiry), nil)
+						}
+						if what == "leaf-notAfter" && res.Type == trustpolicy.TypeAuthenticTimestamp && res.Error == nil {
+							r.Violation(map[string]string{"kind": "stale-clock", "what": "certificate-validity", "verifier": name}, fmt.Sprintf("%s: a %s verifier passed authenticTimestamp %.1f s after the leaf certificate expired (%v)", format, name, time.Since(shortLeaf.Cert.NotAfter).Seconds(), shortLeaf.Cert.NotAfter), nil)
+						}
 					}
 				}
 			}
